@@ -232,4 +232,11 @@ def r04_parser(ctx):
     parsershape.check_parser(ctx, 'R04.5')
 
 
-RULES = [('R04-transitions', r04_transitions), ('R04-init', r04_init), ('R04-guard', r04_guard), ('R04.5', r04_parser)]
+def r04_decode(ctx):
+    """A token becomes a message that encodes back to exactly the token: nothing invented, nothing dropped (decoder layouts,
+    shared with C01 R01.3; the accepted token shapes are C02's)."""
+    from . import c01
+    ctx.borrow(c01.r01_3, 'R04.6')
+
+
+RULES = [('R04.6', r04_decode), ('R04-transitions', r04_transitions), ('R04-init', r04_init), ('R04-guard', r04_guard), ('R04.5', r04_parser)]
